@@ -54,6 +54,9 @@ def run(m, chk):
         chk.ob("R", f"{q}: `{seg(node, 40)}` does not multiply by the reciprocal of an element of the same vector", not bad, loc=r.loc(ctx, node),
                detail="" if not bad else f"{q}: `{seg(node, 50)}` multiplies every knot by `{seg(arg, 30)}`: the last knot becomes x * (1/x), which IEEE arithmetic does not round to exactly 1 for every x (e.g. 49.0) — the interval is not exactly [0, 1]; divide instead",
                func=q, construct="scale by reciprocal of own element")
+    from .extra import normalize_paths
+
+    normalize_paths(r, chk)
     for name in ("shift", "scale", "convert"):
         r.commit_last("COMMIT-LAST", KV + name)
     # every write of normalize goes through an atomic own mutator / the validated setter
